@@ -123,10 +123,31 @@ class Explorer:
     def check(self, *extra):
         t0 = time.time()
         self.queries += 1
+        if getattr(self, "hinted", 0):
+            # an earlier query of this run was only decidable with pinned inputs: try those first
+            for hint in getattr(self, "hints", []):
+                r2 = self.solver.check(*extra, *hint)
+                self.queries += 1
+                if r2 == z3.sat:
+                    self.solver_s += time.time() - t0
+                    return r2
         r = self.solver.check(*extra)
         self.solver_s += time.time() - t0
         if r == z3.unknown:
-            raise Unsupported(f"solver unknown: {self.solver.reason_unknown()}")
+            # bug-hunting fallback for queries the solver cannot decide over the full domain (typically a product
+            # or quotient of two symbolic integers): retry with some inputs pinned to representative constants.
+            # `sat` under a hint is a genuine model of the original query (it is replayed like any other);
+            # anything else leaves the query undecided, i.e. the unit inconclusive - never "held".
+            why = self.solver.reason_unknown()
+            for hint in getattr(self, "hints", []):
+                t1 = time.time()
+                r2 = self.solver.check(*extra, *hint)
+                self.solver_s += time.time() - t1
+                self.queries += 1
+                if r2 == z3.sat:
+                    self.hinted = getattr(self, "hinted", 0) + 1
+                    return r2
+            raise Unsupported(f"solver unknown: {why}")
         return r
 
     def run_all(self, body):
@@ -139,8 +160,15 @@ class Explorer:
             try:
                 body(path)
                 self.paths += 1
+            except StopExploration:
+                self.pending = []
             finally:
                 self.solver.pop()
+
+
+class StopExploration(Exception):
+    """Raised by a unit once it holds enough counterexamples: the remaining paths are not explored (the run can
+    then only end as a violation - if one replays - or inconclusive, never as held)."""
 
 
 class Path:
